@@ -449,6 +449,7 @@ class Model:
                 elif mnm not in all_defined:
                     renames[u] = mnm
         renames = {u: mnm for u, mnm in renames.items() if mnm is not None}
+        self._unmove(pinned, current, private)
         self._unrename_params(pinned, current, renames, private)
         if not renames:
             return
@@ -473,6 +474,53 @@ class Model:
                 return node
         for m in self.mods.values():
             m.tree = R().visit(m.tree)
+
+    def _unmove(self, pinned, current, private):
+        """a private helper that an edit has moved to another module and imports back under its name (`from sigpy._kernels import _poisson`) is read
+        where the rules know it: its definition is copied into the importing module's tree (the import is dropped), so that its qualified name,
+        the names of the calls to it and the module-level context it is analysed in are the pinned ones"""
+        for cont, names in pinned.items():
+            m = self.mods.get(cont)
+            if m is None:
+                continue
+            cur = current.get(cont, {})
+            for nm, (ps, cs, bh) in names.items():
+                if nm in cur or not private(nm):
+                    continue
+                src = None
+                for node in m.tree.body:
+                    if isinstance(node, ast.ImportFrom):
+                        for a in node.names:
+                            if (a.asname or a.name) == nm:
+                                base = node.module or ""
+                                if node.level:
+                                    parts = cont.split(".")
+                                    if not m.is_pkg:
+                                        parts = parts[:-1]
+                                    if node.level > 1:
+                                        parts = parts[: -(node.level - 1)]
+                                    base = ".".join(parts + ([node.module] if node.module else []))
+                                src = (node, a, base, a.name)
+                if src is None:
+                    continue
+                node, alias, base, orig = src
+                other = self.mods.get(base)
+                if other is None:
+                    continue
+                defs = [d for d in other.tree.body if isinstance(d, ast.FunctionDef) and d.name == orig]
+                if len(defs) != 1:
+                    continue
+                ups = [a.arg for a in defs[0].args.posonlyargs + defs[0].args.args + defs[0].args.kwonlyargs]
+                if ups != ps:
+                    continue
+                cp = copy.deepcopy(defs[0])
+                cp.name = nm
+                m.tree.body.append(cp)
+                node.names = [a for a in node.names if a is not alias]
+                if not node.names:
+                    m.tree.body.remove(node)
+                cur[nm] = cp
+                self.moved_back = getattr(self, "moved_back", []) + ["%s.%s <- %s.%s" % (cont, nm, base, orig)]
 
     def _unrename_params(self, pinned, current, renames, private):
         """parameters of a private helper that an edit has renamed (same count, same order) get the names the rules know: inside the helper and in
